@@ -27,3 +27,34 @@ lemma("compat_symmetric", dict(a=Ref("BondDescriptor"), b=Ref("BondDescriptor"))
       "compat_spec(a, b) == compat_spec(b, a)", props=["C03"])
 lemma("compat_empty_bonds_nothing", dict(a=Ref("BondDescriptor"), b=Ref("BondDescriptor")),
       "implies(a.descriptor == '', not compat_spec(a, b) and not compat_spec(b, a))", props=["C03"])
+
+
+# ---- the parser of one descriptor text (C02): what is proved about the real string surgery --------------------------------------------------------------------
+# (the callers in the generator keep using the abstract contract `bond.BondDescriptor.__init__` in contracts/stochastic.py; this variant is verified against the body)
+from pyvc.sorts import INT, STR, Opt
+_BOND_ORDER = ("self.bond_type == ite(':' in preceding_characters, BT.ONEANDAHALF, ite('$' in preceding_characters, BT.QUADRUPLE, "
+               "ite('#' in preceding_characters, BT.TRIPLE, ite('=' in preceding_characters, BT.DOUBLE, BT.SINGLE))))")
+_PARSE = {
+    "self.descriptor_num == descr_num": "position-number-as-given",
+    "implies(big_smiles_ext == '[]', self.descriptor == '' and self.weight == 1.0 and is_none(self.transitions) and self.bond_type == BT.UNSPECIFIED)": "empty-descriptor-bonds-nothing",
+    f"implies(big_smiles_ext != '[]', {_BOND_ORDER})": "bond-order-from-the-characters-before-the-descriptor",
+    "implies(big_smiles_ext != '[]' and len(preceding_characters) > 0, self.descriptor == big_smiles_ext[1])": "symbol-is-the-character-after-the-bracket",
+    "implies(big_smiles_ext != '[]' and len(preceding_characters) > 0 and '|' not in big_smiles_ext, self.weight == 1.0 and is_none(self.transitions))": "no-weight-written-means-weight-one",
+    "implies(big_smiles_ext != '[]', self.preceding_characters == preceding_characters)": "characters-before-the-descriptor-kept",
+    # what is NOT accepted (normal exit implies the text was well formed): C15
+    "implies(big_smiles_ext != '[]', '@' not in preceding_characters and '/' not in preceding_characters and '\\\\' not in preceding_characters)": "stereo-characters-are-rejected",
+    "implies(big_smiles_ext != '[]' and len(preceding_characters) > 0, big_smiles_ext[0] == '[' and big_smiles_ext[len(big_smiles_ext) - 1] == ']' "
+    "and (big_smiles_ext[1] == '$' or big_smiles_ext[1] == '<' or big_smiles_ext[1] == '>'))": "only-bracketed-texts-with-a-known-symbol-are-accepted",
+    "implies(big_smiles_ext != '[]' and len(preceding_characters) > 0 and '|' not in big_smiles_ext and len(big_smiles_ext) == 3, self.descriptor_id == '')": "no-id-written-means-empty-id",
+    "implies(big_smiles_ext != '[]' and len(preceding_characters) > 0 and '|' not in big_smiles_ext and len(big_smiles_ext) > 3, "
+    "self.descriptor_id == parse_int(big_smiles_ext[2:len(big_smiles_ext) - 1].strip()))": "a-written-id-is-the-number-between-symbol-and-bracket",
+    "implies(not is_none(self.transitions), len(self.transitions) != 1 and self.weight == rsum(self.transitions))": "a-transition-list-has-not-one-entry-and-its-sum-is-the-weight",
+}
+contract("bond.BondDescriptor.__init__#parse", props=["C02", "C15"],
+         clause_props={"stereo-characters-are-rejected": ["C15"], "only-bracketed-texts-with-a-known-symbol-are-accepted": ["C15", "C02"]},
+         params=dict(self=Ref("BondDescriptor"), big_smiles_ext=STR, descr_num=INT, preceding_characters=STR, atom_bonding_to=Opt(INT)), returns=None,
+         ensures=list(_PARSE), labels=_PARSE,
+         raises_may={"RuntimeError": "True", "ValueError": "True", "IndexError": "True"},
+         modifies=["BondDescriptor._raw_text@self", "BondDescriptor.descriptor@self", "BondDescriptor.descriptor_id@self", "BondDescriptor.descriptor_num@self",
+                   "BondDescriptor.weight@self", "BondDescriptor.transitions@self", "BondDescriptor.preceding_characters@self", "BondDescriptor.bond_type@self",
+                   "BondDescriptor.bond_stereo@self", "BondDescriptor.atom_bonding_to@self"])
